@@ -287,6 +287,7 @@ type dgor struct {
 	id      int
 	prog    []Op
 	next    int
+	pending bool          // last step neither parked nor returned yet (blocked on a lock, or slow)
 	running bool          // inside a call, parked at a yield point
 	resume  chan struct{} // release from a yield point
 	parked  chan bool     // true: parked at a yield point; false: call returned
@@ -316,49 +317,71 @@ func runDirected(enc *json.Encoder, cat *Catalog, d directed) error {
 	for i, k := range names {
 		gs[k] = &dgor{id: i + 1, prog: d.Progs[k], resume: make(chan struct{}), parked: make(chan bool)}
 	}
-	// only one goroutine runs inside ocimem at a time, so the hook knows who is calling
-	var cur *dgor
+	// The hook finds out which scheduled goroutine is calling from the goroutine id.  A goroutine can
+	// also be blocked on a lock held by a parked goroutine: a step that neither parks nor returns within
+	// a short time is left pending and picked up again by a later step.
+	var byGoid sync.Map
 	ocimem.VerifHook = func(point string) {
-		g := cur
-		if g == nil {
+		v, ok := byGoid.Load(goid())
+		if !ok {
 			return
 		}
+		g := v.(*dgor)
 		g.parked <- true
 		<-g.resume
 	}
 	defer func() { ocimem.VerifHook = nil }()
-	step := func(g *dgor) {
-		cur = g
+	const patience = 25 * time.Millisecond
+	await := func(g *dgor, wait time.Duration) {
+		select {
+		case p := <-g.parked:
+			g.pending = false
+			if !p {
+				g.running = false
+			}
+		case <-time.After(wait):
+			g.pending = true
+		}
+	}
+	step := func(g *dgor, wait time.Duration) {
+		if g.pending {
+			await(g, wait)
+			return
+		}
 		if g.running {
 			g.resume <- struct{}{}
 		} else {
 			if g.next >= len(g.prog) {
-				cur = nil
 				return
 			}
 			op := g.prog[g.next]
 			g.next++
 			g.running = true
 			go func() {
+				byGoid.Store(goid(), g)
 				h.call(ctx, w, g.id, op)
 				g.parked <- false
 			}()
 		}
-		if !<-g.parked {
-			g.running = false
-		}
-		cur = nil
+		await(g, wait)
 	}
 	for _, name := range d.Sched {
 		if g := gs[name]; g != nil {
-			step(g)
+			step(g, patience)
 		}
 	}
 	// drain: let every goroutine finish what it started and run the rest of its program
-	for _, k := range names {
-		g := gs[k]
-		for g.running || g.next < len(g.prog) {
-			step(g)
+	for round := 0; round < 10000; round++ {
+		busy := false
+		for _, k := range names {
+			g := gs[k]
+			if g.running || g.pending || g.next < len(g.prog) {
+				busy = true
+				step(g, patience)
+			}
+		}
+		if !busy {
+			break
 		}
 	}
 	for _, op := range d.Final {
@@ -366,4 +389,13 @@ func runDirected(enc *json.Encoder, cat *Catalog, d directed) error {
 	}
 	h.flush(enc)
 	return nil
+}
+
+// goid returns the id of the calling goroutine (parsed from the stack header; harness use only).
+func goid() int64 {
+	var buf [64]byte
+	n := runtime.Stack(buf[:], false)
+	var id int64
+	fmt.Sscanf(string(buf[:n]), "goroutine %d ", &id)
+	return id
 }
